@@ -465,9 +465,12 @@ def _hdens(x, a, b):
     return a + b * x
 
 
-def sc_wrapper_hist(cx, spec, density):
+def sc_wrapper_hist(cx, spec, density, nofit=False):
     """hist_fit wrapper vs the explicitly constructed HistFit: same cost function choice (Gaussian approximation as soon
-    as ANY uncertainty is given, Poisson likelihood otherwise), same sources, same cost"""
+    as ANY uncertainty is given, Poisson likelihood otherwise), same sources, same cost.
+    nofit=True (family wrapper-config/hist): the do_fit call inside the wrapper is replaced by a no-op for the duration
+    of the wrapper call -- the configuration the wrapper builds (cost function choice, sources, covariance), not the
+    minimisation, is the subject; this makes fully correlated and model-relative sources reachable symbolically"""
     import sys
 
     import kafe2.fit.util.wrapper  # noqa: F401
@@ -497,7 +500,14 @@ def sc_wrapper_hist(cx, spec, density):
         kw["error_rel"] = r
     if "cor-rel" in spec:
         kw["error_cor_rel"] = cr[0]
-    res = W.hist_fit(_hdens, list(raw), n_bins=n, bin_range=(0.0, 4.5), density=density, p0=list(p0), report=False, profile=False, save=False, **kw)
+    if nofit:
+        _orig = HistFit.do_fit
+        HistFit.do_fit = lambda self, *a, **k: {}
+    try:
+        res = W.hist_fit(_hdens, list(raw), n_bins=n, bin_range=(0.0, 4.5), density=density, p0=list(p0), report=False, profile=False, save=False, **kw)
+    finally:
+        if nofit:
+            HistFit.do_fit = _orig
     fa = res["fit"]
     hb = HistContainer(n, (0.0, 4.5), fill_data=list(raw))
     fb = HistFit(hb, _hdens, cost_function="gauss_approximation" if spec else "poisson", density=density)
@@ -509,7 +519,7 @@ def sc_wrapper_hist(cx, spec, density):
         fb.add_error(r, relative=True, reference="model")
     if "cor-rel" in spec:
         fb.add_error(cr[0], correlation=1.0, relative=True, reference="model")
-    tag = "wrapper/hist/%s/density-%s" % ("+".join(spec) or "none", density)
+    tag = "%s/hist/%s/density-%s" % ("wrapper-config" if nofit else "wrapper", "+".join(spec) or "none", density)
     cx.concrete(tag + ":same-cost-function", type(fa._cost_function).__name__ == type(fb._cost_function).__name__ and fa._cost_function.name == fb._cost_function.name,
                 info="%s / %s vs %s / %s" % (type(fa._cost_function).__name__, fa._cost_function.name, type(fb._cost_function).__name__, fb._cost_function.name))
     q = [cx.real("q_a"), cx.real("q_b")]
@@ -604,6 +614,9 @@ def scenarios(tier, seed):
             if tier == "quick" and (not density and spec != [] or spec == ["rel"]):
                 continue  # model-relative source: the variance depends on the parameters (now with its ln det term): thorough tier
             S.append(Scenario("wrapper/hist/%s/density-%s" % ("+".join(spec) or "none", density), sc_wrapper_hist, family="wrapper/hist", params=dict(spec=spec, density=density)))
+    for spec in (["cor"], ["rel"], ["cor-rel"], ["error", "cor-rel"], ["cor", "rel"], ["error", "cor", "rel", "cor-rel"]):
+        for density in (True, False):
+            S.append(Scenario("wrapper-config/hist/%s/density-%s" % ("+".join(spec), density), sc_wrapper_hist, family="wrapper-config/hist", params=dict(spec=spec, density=density, nofit=True)))
     S.append(Scenario("rel-vs-abs/y/chi2_pointwise", sc_rel_vs_abs, family="rel-vs-abs", params=dict(axis="y", cost="chi2_pointwise")))
     S.append(Scenario("simple-vs-matrix/nll-gaussian", sc_simple_vs_matrix, family="simple-vs-matrix", params=dict(cost="nll-gaussian")))
     for what in ("rel-vs-abs", "simple-vs-matrix", "cor-vs-cov", "scalar-vs-vector"):
